@@ -1,0 +1,50 @@
+//go:build verif
+
+package pppoe
+
+// Read-only accessors for the C11 runtime monitor (restart counter and restart
+// timer field of the three RFC 1661 automata). They have no behaviour of their
+// own; the monitor uses them only to fingerprint explored states and to name
+// the event after which an automaton was left without a running timer.
+
+// VerifC11RestartCount returns the LCP restart counter.
+func (lcp *LCPStateMachine) VerifC11RestartCount() int {
+	lcp.mu.RLock()
+	defer lcp.mu.RUnlock()
+	return lcp.restartCount
+}
+
+// VerifC11TimerSet reports whether the LCP restart timer field is non-nil.
+func (lcp *LCPStateMachine) VerifC11TimerSet() bool {
+	lcp.timerMu.Lock()
+	defer lcp.timerMu.Unlock()
+	return lcp.restartTimer != nil
+}
+
+// VerifC11RestartCount returns the IPCP restart counter.
+func (ipcp *IPCPStateMachine) VerifC11RestartCount() int {
+	ipcp.mu.RLock()
+	defer ipcp.mu.RUnlock()
+	return ipcp.restartCount
+}
+
+// VerifC11TimerSet reports whether the IPCP restart timer field is non-nil.
+func (ipcp *IPCPStateMachine) VerifC11TimerSet() bool {
+	ipcp.timerMu.Lock()
+	defer ipcp.timerMu.Unlock()
+	return ipcp.restartTimer != nil
+}
+
+// VerifC11RestartCount returns the IPV6CP restart counter.
+func (ipv6cp *IPV6CPStateMachine) VerifC11RestartCount() int {
+	ipv6cp.mu.RLock()
+	defer ipv6cp.mu.RUnlock()
+	return ipv6cp.restartCount
+}
+
+// VerifC11TimerSet reports whether the IPV6CP restart timer field is non-nil.
+func (ipv6cp *IPV6CPStateMachine) VerifC11TimerSet() bool {
+	ipv6cp.timerMu.Lock()
+	defer ipv6cp.timerMu.Unlock()
+	return ipv6cp.restartTimer != nil
+}
